@@ -299,6 +299,13 @@ func (t *trace) opLine(s *Step) string {
 	case "l1head":
 		return fmt.Sprintf("l1head %d", s.L1.BlockNumber)
 	case "prune":
+		if len(s.L2) > 0 {
+			nums := make([]string, len(s.L2))
+			for i, x := range s.L2 {
+				nums[i] = fmt.Sprint(x)
+			}
+			return fmt.Sprintf("l2events %d %d %s", s.Retained, s.L2Per, strings.Join(nums, ","))
+		}
 		if t.sc.ViaPruner {
 			return fmt.Sprintf("l1event %d %d", s.PruneTo+s.Retained, s.Retained)
 		}
@@ -335,7 +342,9 @@ func (t *trace) stepQL(s *Step, err error, n *Node, store db.KeyValueStore, quie
 		if n.fdb.isInitWrite(n.fdb.failAt) {
 			rec.fault = "i"
 		}
-		if s.Op == "prune" {
+		if s.Op == "prune" && !s.ModelBatches {
+			// the real sweep rotated its batch elsewhere than the model's (byte threshold other than
+			// "one batch per block"): the position of the failing batch is not comparable
 			rec.skip = true
 		}
 	}
